@@ -76,8 +76,8 @@ type WOut struct {
 	Steps     int    `json:"steps"`  // gated calls performed
 	Began     bool   `json:"began"`
 	After     []int  `json:"after,omitempty"`
-	// the first refetch-and-merge round was entered because the node-key Lock failed (not after a rolled
-	// back commit attempt): the item lock records of the first lockTrackedItems are still in the cache
+	// some refetch-and-merge round was entered because a node-key Lock/DualLock failed (not after a rolled
+	// back commit attempt): the item lock records of the previous lockTrackedItems are still in the cache
 	LockFailMerge bool `json:"lock_fail_merge,omitempty"`
 }
 
@@ -315,9 +315,10 @@ func Exec(p *Program, folder string) *Outcome {
 			switch {
 			case ev.Iface == "sr" && ev.Method == "GetWithTTL":
 				out.W[w.idx].Merges++
-				if out.W[w.idx].Merges == 1 && !w.attempted {
+				if !w.attempted {
 					out.W[w.idx].LockFailMerge = true
 				}
+				w.attempted = false
 			case ev.Iface == "l2" && (ev.Method == "Lock" || ev.Method == "DualLock") && ev.Bool != nil && !*ev.Bool:
 				w.lockFail = true
 			case ev.Iface == "reg" || ev.Iface == "blob":
